@@ -300,3 +300,41 @@ PROPS["C10"] = _tx("C10", ["C10_cancel_effect", "C10_no_file_after_cancel", "C10
     "(destination must not appear or change after a cancel that preceded delivery).",
     " Termination of the cancel handshake within the limits is the subject of C03 (partial); 'at the peer too when "
     "reachable' needs the two-machine composition and is exercised by the lock-step scripts only.")
+
+PROPS["C17"] = _tx("C17", ["C17_limit_after_reset", "C17_limit_after_restart", "C17_count", "C17_paused_frozen",
+                           "C17_receiver_dispatch", "C17_sender_dispatch", "C17_no_inactivity_fault_before_limit",
+                           "C17_no_ack_fault_before_limit"], ["recv", "send"],
+    "Proof: closed form of the Counter (count = min(max, elapsed/timeout)), the limit is reached exactly at "
+    "t0 + max*timeout after a reset and after (max-count) further periods after a restart, paused timers never move; "
+    "the fault-handler dispatch of both machines (action = configured one, default cancel; ignore leaves phase/state/"
+    "timers untouched, suspend suspends, abandon terminates at once); no inactivity / positive-ACK fault before the "
+    "limit. Tied to timer.rs / recv.rs / send.rs by lock-step scripts whose time advances land just before, on and "
+    "after each deadline.",
+    " The exact emission schedule 'one retransmission per earlier expiration' follows from the timer theorems plus the "
+    "model's handle_timeout (flag set once per expiry) and is exercised by the lock-step scripts; it is not stated as a "
+    "separate closed-loop theorem. Counter::update's while loop is modelled by its closed form (timeout > 0).")
+PROPS["C19"] = _tx("C19", ["C19_receiver_silent", "C19_sender_silent", "C19_paused_timers_do_not_count"], ["recv", "send"],
+    "Proof for both machines: in a suspended state the send arm and the timeout arm of the loop are disabled for any "
+    "suspension length, and no operation whatsoever (received PDUs included) emits a PDU or declares a timer-limit "
+    "fault; paused timers do not count suspended time. Lock-step correspondence plus an oracle on the real code "
+    "(no PDU / no timer fault while suspended, has_pdu_to_send false, until_timeout MAX).",
+    " 'After resume the transfer continues and completes exactly as an unsuspended one would' is inherited from C02 "
+    "and not claimed as a theorem (partial).")
+PROPS["C20"] = _tx("C20", ["C20_receiver_progress_invariant", "C20_receiver_progress_initial",
+                           "C20_receiver_outputs_carry_progress", "C20_sender_progress_step"], ["recv", "send", "segments"],
+    "Proof: receiver progress = total of the well-formed segment list (= distinct bytes held, by C09) in every reachable "
+    "state, and the Fault/Abandon/Resumed/KeepAlive outputs carry that value; sender progress after every step = max of "
+    "the previous progress and the highest end offset of the file data PDUs emitted (hence the highest offset transmitted "
+    "so far, monotone, and with C07 never beyond the file size). Lock-step correspondence plus oracles recomputing both "
+    "figures independently from the observed PDUs.")
+PROPS["C07"] = _tx("C07", ["C07_initial", "C07_every_step", "C07_nak_split_wellformed", "C07_file_data_correct",
+                           "C07_eof_truthful"], ["send"],
+    "Proof on the send-transaction model, for all file contents, segment sizes > 0, and operation sequences (NAKs of any "
+    "shape, at any time): every file data PDU emitted carries exactly the file's bytes at its offset, is non-empty, at most "
+    "one segment long and inside the file; NAK requests are cut to the file and to the segment size; EOF carries the "
+    "stored size and the checksum of the file. Lock-step correspondence with the real SendTransaction and an oracle that "
+    "re-checks every emitted PDU (bytes, offsets, sizes, names, checksum, header ids/mode/direction, length field = "
+    "encoded payload length).",
+    " Not stated as theorems (exercised by the lock-step stream only): 'the first pass tiles the file once, in order' and "
+    "'every emitted PDU carries the transaction's ids / a length field equal to its payload' (the model computes the length "
+    "with its own payload_len formula, compared with the real encoded_len on every emitted PDU).")
